@@ -884,6 +884,10 @@ func (e *Env) evalCall(x *Expr) cval {
 			e.errorf("callres: no call of %s recorded", x.Args[0].Str)
 			return cval{"nilval", CT{Sort: "Val"}}
 		}
+	case "detachedCtx":
+		// detachedCtx(ctx): established only by context.WithoutCancel / context.Background (ext.go)
+		vc.sc.DeclFun("detachedCtx", []string{"Val"}, "Bool")
+		return cval{sx("detachedCtx", argv(0).t), B}
 	case "called":
 		// called("key"): the path executed the (first) call of key
 		if len(x.Args) == 1 && x.Args[0].Op == "lit-str" {
